@@ -237,7 +237,8 @@ class WassersteinSpec(Spec):
     tol = 1e-5
 
     def configs(self, tier):
-        return [{"metric": m, "memory_size": ms} for m in ("cosine", "euclidean") for ms in ("2G", "48")]
+        # memory_size 48 / 96 / 144 bytes = transform blocks of 1 / 2 / 3 rows (LOT dimension 3 x 2 doubles)
+        return [{"metric": m, "memory_size": ms} for m in ("cosine", "euclidean") for ms in ("2G", "48", "96", "144")]
 
     def make(self, cfg):
         import vectorizers as V
@@ -278,7 +279,7 @@ class SinkhornSpec(WassersteinSpec):
     tol = 1e-4
 
     def configs(self, tier):
-        return [{"metric": m, "chunk_size": c} for m in ("cosine", "euclidean") for c in (1, 2, 32)]
+        return [{"metric": m, "chunk_size": c, "memory_size": ms} for m in ("cosine", "euclidean") for c, ms in ((1, "2G"), (2, "2G"), (32, "2G"), (32, "96"), (2, "144"))]
 
     def make(self, cfg):
         import vectorizers as V
